@@ -107,3 +107,87 @@ Lemma offline_get_sub_out f s sid u : all_out plain (o_out (offline_get_sub f s 
 Proof. unfold offline_get_sub. repeat break_match; out_solve. Qed.
 Lemma offline_set_sub_out f s sid u t m : all_out plain (o_out (offline_set_sub f s sid u t m)).
 Proof. unfold offline_set_sub. repeat break_match; out_solve. Qed.
+
+(* ------------------------------------------------------------------ *)
+(* message numbers a frame shows to a client *)
+Definition frame_seqs (fr : frame) : list Z :=
+  match fr with
+  | Ctrl _ ps => map snd (filter (fun p => N.eqb (fst p) P_seq) ps)
+  | Data seq _ _ => [seq]
+  | MetaDesc _ _ seq _ _ _ _ => [seq]
+  | Info _ _ seq => [seq]
+  | _ => []
+  end.
+Definition out_seqs (o : out) : list Z := flat_map (fun e => frame_seqs (snd e)) o.
+Definition shown_le (bound : Z) (o : out) : Prop := forall n, In n (out_seqs o) -> n <= bound.
+
+Lemma plain_no_seqs fr : plain fr = true -> frame_seqs fr = [].
+Proof.
+  destruct fr; cbn; try discriminate; auto. intros H. apply andb_true_iff in H. destruct H as [_ H].
+  induction params as [|p ps IH]; cbn in *; [reflexivity|]. apply andb_true_iff in H. destruct H as [H1 H2].
+  apply negb_true_iff in H1. rewrite H1. auto.
+Qed.
+
+Lemma all_plain_shown b o : all_out plain o -> shown_le b o.
+Proof.
+  intros H n Hn. unfold out_seqs in Hn. apply in_flat_map in Hn. destruct Hn as [e [He Hn]].
+  rewrite (plain_no_seqs _ (H e He)) in Hn. destruct Hn.
+Qed.
+
+Lemma shown_le_app b a c : shown_le b a -> shown_le b c -> shown_le b (a ++ c).
+Proof. intros H1 H2 n Hn. unfold out_seqs in Hn. rewrite flat_map_app in Hn. apply in_app_or in Hn. destruct Hn; auto. Qed.
+Lemma shown_le_mono b b' o : b <= b' -> shown_le b o -> shown_le b' o.
+Proof. intros H1 H2 n Hn. specialize (H2 n Hn). lia. Qed.
+
+Lemma fanout_info_shown c skip what from seq b : seq <= b -> shown_le b (fanout_info c skip what from seq).
+Proof.
+  intros H n Hn. unfold out_seqs in Hn. apply in_flat_map in Hn. destruct Hn as [e [He Hn]].
+  unfold fanout_info in He. apply in_flat_map in He. destruct He as [[s0 [u0 b0]] [_ He]].
+  repeat break_match_hyp; cbn in He; intuition; subst; cbn in Hn; intuition; subst; lia.
+Qed.
+
+Lemma fanout_data_shown c skip seq u content b : seq <= b -> shown_le b (fanout_data c skip (Data seq u content)).
+Proof.
+  intros H n Hn. unfold out_seqs in Hn. apply in_flat_map in Hn. destruct Hn as [e [He Hn]].
+  unfold fanout_data in He. apply in_flat_map in He. destruct He as [[s0 [u0 b0]] [_ He]].
+  repeat break_match_hyp; cbn in He; intuition; subst; cbn in Hn; intuition; subst; lia.
+Qed.
+
+Lemma note_shown f s c n sid u what seq : 0 <= c_lastid c -> shown_le (c_lastid c) (h_out (note f s c n sid u what seq)).
+Proof.
+  intros H0. unfold note. destruct (c_lastid c <? seq) eqn:E; [intros m []|]. apply Z.ltb_ge in E.
+  repeat break_match; cbn [h_out]; try (intros m []); apply fanout_info_shown; assumption.
+Qed.
+
+Lemma get_all_in s u a b l m : In m (ad_msg_get_all s u a b l) -> In m (msgs s).
+Proof.
+  unfold ad_msg_get_all. intros H. apply firstn_In in H.
+  assert (forall l0 x, In x (sort_desc l0) -> In x l0) as SD.
+  { induction l0 as [|y l0 IH]; cbn; [auto|]. intros x Hx.
+    assert (forall z l1, In x (insert_desc z l1) -> x = z \/ In x l1) as INS.
+    { intros z l1. induction l1 as [|w l1 IH1]; cbn; [intuition|]. break_match; cbn; intuition. }
+    apply INS in Hx. destruct Hx; [now left|right; auto]. }
+  apply SD in H. apply filter_In in H. tauto.
+Qed.
+
+Lemma get_data_shown f s c n sid u a b l bound :
+  (forall k, In k (map m_seq (msgs s)) -> k <= bound) ->
+  shown_le bound (h_out (get_data f s c n sid u a b l)).
+Proof.
+  intros H. unfold get_data. repeat break_match; cbn [h_out]; try solve [apply all_plain_shown; out_solve].
+  rewrite <- Heql0. apply (shown_le_app bound).
+  - intros k Hk. unfold out_seqs in Hk. apply in_flat_map in Hk. destruct Hk as [e [He Hk]].
+    apply in_map_iff in He. destruct He as [m0 [<- Hm]]. cbn in Hk. destruct Hk as [<-|[]].
+    apply H. apply in_map. eapply get_all_in. exact Hm.
+  - apply all_plain_shown. out_solve.
+Qed.
+
+Lemma get_desc_shown s c n sid u : 0 <= c_lastid c -> shown_le (c_lastid c) (h_out (get_desc s c n sid u)).
+Proof.
+  intros H0. unfold get_desc. repeat break_match; cbn [h_out]; intros k Hk; cbn in Hk; intuition; subst; lia.
+Qed.
+
+Lemma offline_get_desc_shown f s sid u b : 0 <= b -> shown_le b (o_out (offline_get_desc f s sid u)).
+Proof.
+  intros H0. unfold offline_get_desc. repeat break_match; cbn [o_out]; intros k Hk; cbn in Hk; intuition; subst; lia.
+Qed.
